@@ -112,6 +112,114 @@ def sigOfDefinition (d : KDefinition) : Option DefSem :=
   | [m] => addSentences { sg := { sorts := [], symbols := [] }, rules := [], nAxioms := 0 } m.sentences
   | _ => none
 
+/-! ## definitions with SEVERAL modules
+
+What the real builder does (found out on the real code, `vlib/try_kdef.py` compares on every run):
+* the modules are processed in order; a module whose NAME an earlier module has is refused (`LanguageSemantics.module`: `ValueError`);
+* `Import N`: `N` must be the name of a module that EXISTS ALREADY — an earlier one (a later / unknown module: `get_module` raises
+  `ValueError`; a cyclic import can therefore not be written down, except the import of the module ITSELF, which the real code accepts
+  and then recurses without end on the next lookup that leaves the module: the specification refuses it, the theorems assume there is
+  none); importing the same module twice into one module is refused;
+* a sort / symbol may be declared once PER MODULE (`KModule._sort` / `KModule.symbol` look at the own tables only);
+* the sorts of a symbol declaration are looked up by `KModule.get_sort`: the module's own sorts and the sorts of the modules it imports
+  TRANSITIVELY (`KModule.modules`) — not the sorts of other modules;
+* an axiom is converted by `LanguageSemantics._convert_pattern`, whose `get_sort` / `get_symbol` search ALL modules that exist so far
+  (`LanguageSemantics.modules` starts from every module ever created), imported or not: a rule sees every declaration BEFORE it in
+  the whole definition;
+* ONE counter: the ordinals run on across the modules;
+* the finished semantics: `get_sort` / `get_symbol` see all modules; `get_axiom` is `main_module.get_axiom`, the main module is the LAST
+  one: a rule of a module that the last module does not (transitively) import is NOT found (its scope stays cached).
+Where a name is declared in two different modules the real search order is process-dependent (a `set` of objects hashed by address);
+the specification then takes the first declaration, the theorems exclude the case (`KDefTieM.InFragmentM`). -/
+
+/-- what the specification keeps of a module: its name, the modules it imports (names, in order), the modules it imports
+transitively, the sorts and symbols it declares itself, the ordinals of its own rules -/
+structure ModSem where
+  name : Nat
+  imports : List Nat
+  reach : List Nat
+  sorts : List Nat
+  symbols : List Nat
+  ordinals : List Nat
+deriving Repr, Inhabited, DecidableEq
+
+def ModSem.new (name : Nat) : ModSem := { name := name, imports := [], reach := [], sorts := [], symbols := [], ordinals := [] }
+
+/-- the state of the construction: `all` — the declarations and rules of ALL modules so far (in the order of the sentences) and the one
+counter; the finished modules; the module under construction -/
+structure DefSemM where
+  all : DefSem
+  done : List ModSem
+  cur : ModSem
+deriving Repr, Inhabited
+
+/-- the sorts of the modules with these names -/
+def sortsOf (ms : List ModSem) (names : List Nat) : List Nat := (ms.filter fun m => names.contains m.name).flatMap (·.sorts)
+/-- the rule ordinals of the modules with these names -/
+def ordinalsOf (ms : List ModSem) (names : List Nat) : List Nat := (ms.filter fun m => names.contains m.name).flatMap (·.ordinals)
+
+/-- the sorts a symbol declaration of the current module may use: its own and those of the modules it imports transitively -/
+def DefSemM.visibleSorts (d : DefSemM) : List Nat := d.cur.sorts ++ sortsOf d.done d.cur.reach
+
+/-- one sentence of the module under construction -/
+def addSentenceM (d : DefSemM) : KSentence → Option DefSemM
+  | .«import» mn =>
+      match d.done.find? (·.name == mn) with
+      | none => none
+      | some m =>
+          if d.cur.imports.contains mn then none
+          else some { d with cur := { d.cur with imports := d.cur.imports ++ [mn], reach := d.cur.reach ++ mn :: m.reach } }
+  | .sortDecl name _ =>
+      if d.cur.sorts.contains name then none
+      else some { d with all := { d.all with sg := { d.all.sg with sorts := d.all.sg.sorts ++ [name] } },
+                         cur := { d.cur with sorts := d.cur.sorts ++ [name] } }
+  | .symbolDecl name vars params sort attrs =>
+      if d.cur.symbols.contains name then none
+      else if !(params ++ [sort]).all (sortOk { sorts := d.visibleSorts, symbols := [] } vars) then none
+      else some { d with all := { d.all with sg := { d.all.sg with symbols := d.all.sg.symbols ++ [symDecl name vars params attrs] } },
+                         cur := { d.cur with symbols := d.cur.symbols ++ [name] } }
+  | .«axiom» p =>
+      match ruleOf p with
+      | none => some { d with all := { d.all with nAxioms := d.all.nAxioms + 1 } }
+      | some (kind, t) =>
+          (conv d.all.sg {} t).map fun r =>
+            { d with all := { d.all with rules := d.all.rules ++ [{ ordinal := d.all.nAxioms, kind := kind, pattern := r.2, scope := r.1 }],
+                                         nAxioms := d.all.nAxioms + 1 },
+                     cur := { d.cur with ordinals := d.cur.ordinals ++ [d.all.nAxioms] } }
+  | .other => some d
+
+def addSentencesM : DefSemM → List KSentence → Option DefSemM
+  | d, [] => some d
+  | d, s :: ss => (addSentenceM d s).bind fun d' => addSentencesM d' ss
+
+/-- one module: refused if its name is taken -/
+def addModule (a : DefSem × List ModSem) (m : KModuleDef) : Option (DefSem × List ModSem) :=
+  if a.2.any (·.name == m.name) then none
+  else (addSentencesM { all := a.1, done := a.2, cur := ModSem.new m.name } m.sentences).map fun d => (d.all, d.done ++ [d.cur])
+
+def addModules : DefSem × List ModSem → List KModuleDef → Option (DefSem × List ModSem)
+  | a, [] => some a
+  | a, m :: ms => (addModule a m).bind fun a' => addModules a' ms
+
+def emptySem : DefSem := { sg := { sorts := [], symbols := [] }, rules := [], nAxioms := 0 }
+
+/-- ALL modules of a definition: the declarations, rules and the counter, and the modules -/
+def modulesOfDefinition (d : KDefinition) : Option (DefSem × List ModSem) := addModules (emptySem, []) d.modules
+
+/-- the ordinals `get_axiom` finds: those of the main (= last) module and of the modules it imports transitively -/
+def mainOrdinals (ms : List ModSem) : List Nat :=
+  match ms.getLast? with
+  | none => []
+  | some main => main.ordinals ++ ordinalsOf ms main.reach
+
+/-- the meaning of a definition with any number of modules: the signature has the declarations of ALL modules, the rules are
+those `get_axiom` finds (`mainOrdinals`), `nAxioms` counts the axioms of all modules -/
+def sigOfDefinitionM (d : KDefinition) : Option DefSem :=
+  (modulesOfDefinition d).map fun a => { a.1 with rules := a.1.rules.filter fun r => (mainOrdinals a.2).contains r.ordinal }
+
+/-- `_cached_axiom_scopes`: the scopes of the rules of ALL modules, also of those `get_axiom` does not find -/
+def allRulesOfDefinition (d : KDefinition) : Option (List Rule) := (modulesOfDefinition d).map (·.1.rules)
+
 /-- `get_axiom(ordinal)`: the rule with this ordinal -/
 def DefSem.rule? (d : DefSem) (ordinal : Nat) : Option Rule := d.rules.find? (·.ordinal == ordinal)
 
